@@ -15,10 +15,9 @@ DST = "/verif/seeded"
 # checks that catch each change (the first is the owner); strengthened = the check had to be extended first
 CAUGHT = {
     "C06": {"A": ["C05"], "B": ["C05"]}, "C24": {"A": ["C24"], "B": ["C06"]}, "C17": {"A": ["C25"], "B": ["C17"]},
-    "C15": {"A": ["C15"], "B": ["C15"]}, "C12": {"A": ["C12"], "B": []}, "C20": {"A": ["C20"], "B": ["C20"]},
+    "C15": {"A": ["C15"], "B": ["C15"]}, "C12": {"A": ["C12"], "B": ["C12"]}, "C20": {"A": ["C20"], "B": ["C20"]},
 }
 NOT_CAUGHT = {
-    ("C12", "B"): "not caught: needs one FunctionSpace over a MeshSequence used in two forms integrating over different component meshes, both signed in one process; MeshSequence (mixed-domain) forms are outside every generator here",
 }
 STRENGTHENED = {
     ("C03", "A"): "C03 got expressions over two meshes of different geometric dimension", ("C03", "B"): "C03 got derivative requests on elements with sub-degree 0 < super-degree, with a definition-based oracle for the derivative constructors",
@@ -29,6 +28,7 @@ STRENGTHENED = {
     ("C15", "A"): "C15 got first- and second-order coordinate derivatives in the same direction",
     ("C15", "B"): "C15 got a history obligation: an integral type registered (ufl.measure.register_integral_type) after a first grouping in the same process", ("C16", "B"): "C16 got theta-scheme forms whose Variable nodes share labels after replace()",
     ("C20", "B"): "C20 got a concrete side check in a fresh interpreter: apply_geometry_lowering on geometric quantity types registered after its first use",
+    ("C12", "B"): "C12's replay got a history entry: a function space over a MeshSequence used by two forms over different component meshes, signed in both orders within one process",
     ("C18", "A"): "C18 got one mixed element used on a flat and then on an immersed mesh in one process", ("C19", "B"): "C19 got two differently configured instances with a memoised handler",
     ("C21", "A"): "C21 got an unexpanded derivative with an image containing the differentiation variable", ("C21", "B"): "C21 got nabla_grad of a 3-vector on a 2D mesh with constant images",
     ("C22", "B"): "C22 got upper/lower triangular MixedFunctionSpace couplings", ("C23", "A"): "C23 got compared operands that contain conditionals / min / max",
